@@ -122,9 +122,9 @@ def replay(v, workdir):
 
 EV = ["cres", "cev"]
 PROPS = {
-    "C01": dict(run=gateway_run(["stream", "gc", "query", "win-load", "win-query", "win-alias", "win-gc"], EV)),
+    "C01": dict(run=gateway_run(["stream", "gc", "query", "win-load", "win-query", "win-alias", "win-gc", "win-reset1", "win-reset2"], EV)),
     "C02": dict(run=tables.combine(gateway_run(["gc", "stream", "win-gc", "win-load"], EV), tables.tables_run(["gc"], "collector"))),
-    "C03": dict(run=gateway_run(["stream", "access", "win-load", "win-recheck"], ["cev"])),
+    "C03": dict(run=gateway_run(["stream", "access", "win-load", "win-recheck", "win-reset2"], ["cev"])),
     "C07": dict(run=gateway_run(["gc", "access", "win-gc", "win-recheck", "thr-ref1"], ["cres"])),
     "C08": dict(run=gateway_run(["gc", "cache", "win-gc", "win-evict"], ["cres"])),
     "C09": dict(run=gateway_run(["cache", "query", "win-evict"], ["msub", "munsub", "mreq"])),
@@ -137,7 +137,7 @@ PROPS = {
                                    gateway_run(["stream", "win-load", "win-alias"], ["mreq", "cev"], also=("C01",)))),
     "C06": dict(run=gateway_run(["access", "stream", "win-recheck", "win-load"], ["note", "cev"])),
     "C13": dict(run=gateway_run(["query", "win-query", "win-alias"], ["mreq", "mres"], also=("C01",))),
-    "C15": dict(run=gateway_run(["malformed", "gc", "stream", "access", "cache", "query", "win-load", "win-recheck", "win-query", "win-alias", "win-evict", "win-gc", "win-indirect"], ["cres", "cev"],
+    "C15": dict(run=gateway_run(["malformed", "gc", "stream", "access", "cache", "query", "win-load", "win-recheck", "win-query", "win-alias", "win-evict", "win-gc", "win-indirect", "win-reset1", "win-reset2"], ["cres", "cev"],
                                 # containment: on the malformed-message family every other predicate is part of C15
                                 also=("C01", "C02", "C03", "C04", "C05", "C07", "C08", "C09", "C13"), also_fams={"malformed"})),
 }
@@ -326,20 +326,26 @@ def ressub_model(ctx):
     d = os.path.join(ctx.workdir, "ressub-mc")
     os.makedirs(d, exist_ok=True)
     shutil.copy(os.path.join(SPEC, "ResSub.tla"), d)
-    ev, rst, cu = (5, 2, 1) if ctx.tier == "quick" else (7, 3, 2)
-    with open(os.path.join(d, "ResSub.cfg"), "w") as f:
-        f.write("SPECIFICATION Spec\nCONSTANTS\n MaxEv = %d\n MaxReset = %d\n MaxCustom = %d\nINVARIANTS Told OneRefetch Converges\nPROPERTIES NoGap Refetched\nCHECK_DEADLOCK FALSE\n" % (ev, rst, cu))
+    ev, rst, cu, fl = (5, 2, 1, 2) if ctx.tier == "quick" else (6, 3, 2, 2)
+    def cfg(rep):
+        with open(os.path.join(d, "ResSub.cfg"), "w") as f:
+            f.write("SPECIFICATION Spec\nCONSTANTS\n MaxEv = %d\n MaxReset = %d\n MaxCustom = %d\n MaxFail = %d\n Repaired = %s\nINVARIANTS Told OneRefetch Converges\nPROPERTIES NoGap Refetched\nCHECK_DEADLOCK FALSE\n" % (ev, rst, cu, fl, rep))
+    cfg("TRUE")
     p = tlc("ResSub.tla", d, [], timeout=3000, workers=8)
     if "No error has been found" not in p.stdout:
         raise MachineryError("ResSub.tla does not satisfy its own properties (model bug):\n" + p.stdout[-2000:])
     g, dist = tlc_stats(p.stdout)
-    cov = dict(states=dist, transitions=g, samples=[{"model": "spec/ResSub.tla MaxEv=%d MaxReset=%d MaxCustom=%d; invariants Told OneRefetch Converges; action property NoGap; liveness Refetched" % (ev, rst, cu)}],
+    cfg("FALSE")
+    p2 = tlc("ResSub.tla", d, [], timeout=3000, workers=8)
+    if "Invariant Converges is violated" not in p2.stdout:
+        raise MachineryError("ResSub.tla with Repaired = FALSE should violate Converges (the repaired defect: events dropped during a re-fetch that then fails):\n" + p2.stdout[-1500:])
+    cov = dict(states=dist, transitions=g, samples=[{"model": "spec/ResSub.tla MaxEv=%d MaxReset=%d MaxCustom=%d MaxFail=%d Repaired=TRUE; invariants Told OneRefetch Converges; action property NoGap; liveness Refetched; with Repaired=FALSE (events dropped during a re-fetch) TLC finds Converges violated when the re-fetch fails" % (ev, rst, cu, fl)}],
                rule="exhaustive TLC on ResSub.tla (design: discarding events before the initial answer and during a re-fetch is sound under FIFO delivery); bound to the code through the observer's C01 / C12 rules and the OneRefetch rule on resetres notes", exhaustive=False)
     return dict(coverage=cov, violations=[], level="model_checking", assumptions=["everything one service publishes reaches the gateway in publish order"])
 
 
 PROPS["C12"] = dict(run=tables.combine(ressub_model, tables.tables_run(["pattern", "coldiff", "modeldiff"], "reset matching / diff"),
-                                       gateway_run(["stream", "win-load", "win-alias"], ["mreq", "cev"], also=("C01",))))
+                                       gateway_run(["stream", "win-load", "win-alias", "win-reset1", "win-reset2"], ["mreq", "cev"], also=("C01",))))
 
 
 def directcount_model(ctx):
